@@ -168,8 +168,26 @@ def r06_3(ctx):
            'runs the job already reads as ready, so no time-limit action is taken on its behalf')
     # and only for a job that is owned by a live worker of this pool
     kills = [n for (n, c) in q.calls(fi, ('_kill', 'os.kill'))]
-    ok = all(any(p and t == 'self._process_by_pid(%s._worker_pid)' % job or
-                 (p and t in ('process',)) for (t, p) in q.guards_norm(fi, n)) for n in kills)
+    # the process object is the FIRST element of what _process_by_pid returns (the second is its
+    # position in the list, which is 0 -- falsy -- for the first worker)
+    pvars = []
+    for st in walk_own(fi.node):
+        if isinstance(st, ast.Assign) and isinstance(st.value, ast.Call) and \
+                fi.callee(st.value) == 'self._process_by_pid' and \
+                ast.unparse(st.value.args[0]) == job + '._worker_pid':
+            t0 = st.targets[0]
+            pvars.append(ast.unparse(t0.elts[0]) if isinstance(t0, ast.Tuple) and t0.elts else ast.unparse(t0))
+    ok = bool(pvars) and all(any(p and t in pvars for (t, p) in q.guards_norm(fi, n)) for n in kills)
+    pb = m.func('pool:TimeoutHandler._process_by_pid')
+    gens = [g for g in ast.walk(pb.node) if isinstance(g, ast.GeneratorExp)]
+    shape_ok = False
+    for g in gens:
+        comp = g.generators[0]
+        if isinstance(comp.iter, ast.Call) and pb.callee(comp.iter) == 'enumerate' and \
+                isinstance(comp.target, ast.Tuple) and isinstance(g.elt, ast.Tuple) and len(g.elt.elts) == 2:
+            a, b = [ast.unparse(e) for e in comp.target.elts]
+            shape_ok = [ast.unparse(e) for e in g.elt.elts] == [b, a]
+    ok = ok and shape_ok
     ctx.ob('R06.3', 'on_soft_timeout:only-for-a-worker-of-this-pool', ok, fi, kills[0] if kills else None,
            'the signal is sent only when the owner pid belongs to a process of the pool')
 
